@@ -192,6 +192,28 @@ def bounded_purity(tier, seed):
         for i in range(0, len(rels), size):
             jobs.append((tree, rels[i:i + size], rng.randrange(1 << 30), 2 if tier == "quick" else 5))
     _merge(b, pmap(_c15_chunk, jobs))
+    # one regex-based rule object applied to architectures whose matching modules differ
+    from .common import TREES as _T
+    base_mods = ["r", "r.a", "r.a.x", "r.b", "r.c"]
+    more_mods = base_mods + ["r.a.legacy", "r.b.legacy", "r.d"]
+    A = build_arch(base_mods, [("r.a.x", "r.b")])
+    B = build_arch(more_mods, [("r.a.x", "r.b"), ("r.a.legacy", "r.c"), ("r.d", "r.b.legacy"), ("r.c", "r.a.legacy")])
+    for side in ("subject", "object"):
+        for verb, imp, exc in [(v, i, e) for v in ("should", "should_only", "should_not") for i in (True, False) for e in (False, True)]:
+            for rx in (r"r\.a.*", r".*legacy|r\.c$", r"r\.[ab]$"):
+                def mk():
+                    if side == "subject":
+                        return make_rule([("regex", rx)], verb, imp, exc, [("name", "r.c")])
+                    return make_rule([("name", "r.c")], verb, imp, exc, [("regex", rx)])
+                fA, fB = outcome(mk(), A), outcome(mk(), B)
+                for order in ((A, B, A), (B, A, B)):
+                    r = mk()
+                    seq = [outcome(r, x) for x in order]
+                    want = [fA if x is A else fB for x in order]
+                    b.case()
+                    if seq != want:
+                        b.violation("regex-rule-reapplied", f"one regex rule object ({side} {rx!r}, {verb}, import={imp}, except={exc}) applied to {'ABA' if order[0] is A else 'BAB'} gave {seq}; fresh rules give {want}",
+                                    dict(kind="regex-reapply", side=side, verb=verb, import_=imp, except_=exc, regex=rx))
     # hash seeds: fresh interpreter per seed
     seeds = [0, 1, 7] if tier == "quick" else [0, 1, 2, 3, 5, 7, 11, 13]
     from concurrent.futures import ThreadPoolExecutor
@@ -231,7 +253,7 @@ def bounded_purity(tier, seed):
 
 
 def rerun_purity(inp):
-    if inp.get("kind") in ("hash-seed", "enum-order"):
+    if inp.get("kind") in ("hash-seed", "enum-order", "regex-reapply"):
         r = bounded_purity("quick", inp.get("seed", 0))
         v = [x for x in r["violations"] if x["input"].get("kind") == inp["kind"]]
         return not v, (v[0]["detail"] if v else "no difference observed")
